@@ -318,8 +318,22 @@ def classify(make_profile, nballots_check=None):
 
 def replay_text(text):
     "pristine side"
+    import signal
     from droop.profile import ElectionProfile
-    kind, detail, p = classify(lambda: ElectionProfile(data=text))
+
+    class _Hang(Exception):
+        pass
+
+    def _h(signum, frame):
+        raise _Hang()
+    signal.signal(signal.SIGALRM, _h)
+    signal.setitimer(signal.ITIMER_REAL, 20)
+    try:
+        kind, detail, p = classify(lambda: ElectionProfile(data=text))
+    except _Hang:
+        return dict(kind='crash', detail='hang', violated=True)
+    finally:
+        signal.setitimer(signal.ITIMER_REAL, 0)
     out = dict(kind=kind, detail=detail, violated=kind in ('crash', 'invalid', 'ctor-crash'))
     if p is not None:
         nb = p.nBallots
@@ -488,10 +502,17 @@ def render_struct(T, gap_positions, symrefs=None):
     if T['comment'] is not None:
         lines.append(quoted(T['comment']))
     # gaps: a symbolic comment token appended at the end of the chosen lines (so that '#...' forms stay harmless)
+    blocks = []
     for k, gp in enumerate(gap_positions):
+        if isinstance(gp, (list, tuple)) and gp[0] == 'block':
+            blocks.append(gp[1])
+            continue
         c = CommentTok('g%d' % k)
         syms.append(c)
         lines[gp] = lines[gp] + [c]
+    # a comment block of several lines, quoting ballot-like and name-like lines (inserted after the given lines, last first)
+    for g in sorted(blocks, reverse=True):
+        lines[g + 1:g + 1] = [['/*', 'rejected', 'papers:'], ['2', '1', '3', '0'], ['0'], ['"x"', '/*', 'nested', '*/'], ['7', '*/']]
     return lines, syms, mults
 
 
@@ -654,7 +675,17 @@ def explore_tokens(lines, syms, res, pristine, budget, extra_pre=None, tag=''):
             extra_pre(e)
 
     def body(e):
-        kind, detail, p = classify(lambda: ElectionProfile(data=Blob(lines)))
+        import signal
+        from harness.countrun import _alarm, PathTimeout
+        signal.signal(signal.SIGALRM, _alarm)
+        signal.setitimer(signal.ITIMER_REAL, 30)
+        try:
+            kind, detail, p = classify(lambda: ElectionProfile(data=Blob(lines)))
+        except PathTimeout:
+            # "never hangs": the reader did not come back; replay the text concretely under a wall limit
+            kind, detail, p = 'crash', 'hang', None
+        finally:
+            signal.setitimer(signal.ITIMER_REAL, 0)
         res['reach'][kind] = res['reach'].get(kind, 0) + 1
         bad = kind in ('crash', 'invalid', 'ctor-crash')
         extra_cond = None
